@@ -143,7 +143,7 @@ for (m, k) in [(1, 0), (1, 1), (1, 2), (1, 3), (16, 0), (16, 1), (16, 2), (16, 3
     if (m, k) in [(1, 0), (1, 2), (16, 3)]:
         q = ["C03", "C06", "C08"]
     H("f6_life_m%d_k%d" % (m, k), "__verif::f6", "F6", quick=q, thorough=["C03", "C06", "C08"], timeout=1500, cost=70 + 30 * k,
-      stubs=STUB_POOL, inst="Bump<%d>" % m, funcs=F6_FUNCS,
+      stubs=STUB_POOL, inst="Bump<%d>" % m, funcs=F6_FUNCS, exempt=[r"whole capacity handed out again"] if k == 0 else [],
       bounds={"chunks_before": k, "chunk_usable_sizes": [448, 960, 1984][:k], "finger_positions": "any (symbolic, per chunk)",
               "limit": "any Option<usize>", "scenario": "symbolic choice of {drop, reset.drop, reset.reset.drop, reset.alloc(any size <= capacity).drop}",
               "allocator": "A-pool ledger (hand-made chunks registered as handed out)", "unwind": 5})
@@ -246,9 +246,9 @@ for nm, m in (("f7_tw_newchunk_try_m8", 8), ("f7_tw_newchunk_inf_m4", 4), ("f7_t
     _f7(nm, ["C11", "C03"] if m == 16 else [], ["C11", "C10", "C03"], STUB_POOL, F7TW + ["Bump::alloc_layout_slow", "Bump::new_chunk"],
         {"pre_state": "one 448-byte chunk with 16 bytes free (concrete)", "value": "Result<[u8;200], E>", "allocator": "A-pool, nothing refused"}, "Bump<%d>" % m, cost=60)
 for nm, m in (("f7_tw_nested_keep_m1", 1), ("f7_tw_nested_keep_m16", 16), ("f7_tw_nested_release_m1", 1), ("f7_tw_nested_release_m8", 8)):
-    _f7(nm, ["C11"] if m == 1 else [], ["C11", "C01", "C02"], STUB_CUT, F7TW + ["Bump::alloc", "<&Bump as Allocator>::deallocate"],
+    _f7(nm, (["C11", "C10"] if "keep" in nm else ["C11"]) if m == 1 else [], ["C11", "C01", "C02", "C10"], STUB_CUT, F7TW + ["Bump::alloc", "<&Bump as Allocator>::deallocate"],
         {"chunk": "256-byte chunk, concrete finger", "initialiser": "allocates a u32 (symbolic value), keeps or releases it, then fails"}, "Bump<%d>" % m, cost=30)
-for nm, m in (("f7_try_fill_with_m1", 1), ("f7_try_fill_with_m8", 8), ("f7_try_fill_iter_m1", 1), ("f7_try_fill_with_tiny_m1", 1), ("f7_try_fill_with_tiny_m8", 8)):
+for nm, m in (("f7_try_fill_with_m1", 1), ("f7_try_fill_with_m8", 8), ("f7_try_fill_iter_m1", 1), ("f7_try_fill_with_tiny_m1", 1), ("f7_try_fill_with_tiny_m8", 8), ("f7_try_fill_nested_m1", 1), ("f7_try_fill_nested_m16", 16)):
     _f7(nm, ["C11", "C02"] if m == 1 else [], ["C11", "C02"], STUB_CUT, ["Bump::alloc_slice_try_fill_with", "Bump::alloc_slice_try_fill_iter", "Bump::dealloc"],
         {"chunk": "256-byte chunk, finger in {0,16,100,256}", "len": "0..3 (3 for the iterator form)", "failing_index": "any or none", "element": "u32"}, "Bump<%d>" % m, cost=60)
 F7I = {"values": (0, ["Bump::alloc", "Bump::alloc_with", "Bump::try_alloc", "Bump::try_alloc_with"]),
@@ -316,11 +316,25 @@ for nm, q in (("vec_with_capacity_u8", 0), ("vec_with_capacity_u64", 1), ("vec_r
     H("e1_" + nm, "__verif::e1", "E1", quick=["C19"] if q else [], thorough=["C19"], cost=20, stubs=STUB_NULL, allow=PANIC_OK, inst=nm,
       funcs=["collections::Vec/String capacity entry points", "RawVec::allocate_in", "RawVec::reserve_internal", "alloc_guard"],
       bounds={"capacity": "any impossible value", "expectation": "does not return"})
-for nm, q in (("vec_try_reserve_u64", 0), ("vec_try_reserve_a3", 0), ("vec_try_reserve_used_u8", 0), ("vec_try_reserve_used_u64", 0)):
-    H("e1_" + nm, "__verif::e1", "E1", quick=["C19"] if q else [], thorough=["C19"], cost=400, timeout=2400, mem_gb=24, stubs=STUB_NULL, inst=nm,
+for nm, q in (("vec_try_reserve_u64", 1), ("vec_try_reserve_a3", 0), ("vec_try_reserve_used_u8", 1), ("vec_try_reserve_used_u64", 0)):
+    H("e1_" + nm, "__verif::e1", "E1", quick=["C19"] if q else [], thorough=["C19"], cost=80, timeout=2400, mem_gb=16, stubs=STUB_NULL, inst=nm, exempt=[r"harness end reached"] if False else [],
       funcs=["collections::Vec::try_reserve", "collections::Vec::try_reserve_exact", "RawVec::reserve_internal", "RawVec::amortized_new_size", "alloc_guard"],
       bounds={"additional": "any impossible value"})
 
+
+for op in ("push", "insert", "extend_copy", "extend_slice", "extend_iter", "resize", "reserve"):
+    H("v4_growth_" + op, "__verif::v1", "V4", quick=["C18"] if op in ("push", "extend_iter", "extend_copy") else [], thorough=["C18", "C13"], timeout=1500, cost=60,
+      stubs=STUB_CUT + STUB_LOOPS, inst="Vec<u8>", funcs=["collections::Vec::" + op, "RawVec::reserve / amortized_new_size / double"],
+      bounds={"vector": "capacity 4, length 4 (full)", "operation": op + " of one element", "claim": "capacity at least doubles"})
+for nm in ("inf",):
+    H("e1_vec_used_overflow_" + nm, "__verif::e1", "E1", quick=["C19"], thorough=["C19"], cost=30, stubs=STUB_NULL, inst="Vec<u32>", allow=PANIC_OK if nm == "inf" else [],
+      funcs=["collections::Vec::{reserve,reserve_exact,try_reserve,try_reserve_exact}", "RawVec::{fallible,infallible}_reserve_internal"],
+      bounds={"length": "1..3", "additional": "any value with len + additional > usize::MAX"})
+for m in (1, 16):
+    H("i1_decide_twin_m%d" % m, "__verif::i1", "I1", quick=["C20"] if m == 1 else [], thorough=["C20"], timeout=1500, cost=120, stubs=STUB_NULL, inst="Bump<%d> x 2" % m,
+      funcs=["Bump::alloc_layout_slow (x3)"], unwind_is_claim=False,
+      bounds={"arena_B": "current chunk 8128 usable, any limit, request 1..4096 bytes", "arena_A": "chunk-less, request 1..2048 bytes refused by the global allocator first",
+              "claim": "B's request log is the same with and without A's history"})
 
 # ---------------------------------------------------------------------------
 # S1/S2 collections::String (C14)
@@ -341,7 +355,7 @@ for op in ["insert", "insert_str", "remove", "truncate", "split_off", "drain", "
       allow=[r"is_char_boundary|assertion failed|out of bounds|index|range|slice|byte index|cannot remove|placeholder message"],
       bounds={"text": "any valid UTF-8 of 0..4 bytes", "index/range": "any ILLEGAL value (non-boundary or out of range)", "expectation": "the call does not return"})
 H("s2_from_utf8", "__verif::s1", "S2", quick=["C14"], thorough=["C14"], timeout=2400, cost=60, mem_gb=16, stubs=STUB_CUT + STUB_LOOPS, inst="String",
-  funcs=["collections::String::from_utf8", "FromUtf8Error"], bounds={"input": "every byte string of 0..3 bytes"})
+  funcs=["collections::String::from_utf8", "FromUtf8Error"], bounds={"input": "every byte string of 0..2 bytes (3 bytes: solver ran out of 16 GB in core::str validation)"})
 
 
 # ---------------------------------------------------------------------------
